@@ -110,6 +110,34 @@ CHECKS = {
             'must replicate the label.',
             'Content of interaction / transformed columns is decided by C10 / C12. Non-default indexes are outside the callers contract.',
             'DESIGN.md §3 C11'),
+    'C12': ('Hypothesis numeric-text columns x preset lists: reference functions derived from the transformer names + exact keep/drop rule (iff) + union of presets',
+            'Exploration: generated columns (zero forms, tiny/huge, probabilities, every fw threshold +-ulp, quoted numbers, empties) with '
+            'multiplicities straddling the 80% / 75% / single-value boundaries are transformed by the real class; every emitted column is '
+            'compared (1e-9 relative, NaN/inf aware) with an independent pure-Python formula derived from the name (fw names parsed into '
+            'kind/resolution/threshold; ten hand-written minimal/default formulas), a column is emitted iff the reference column passes the '
+            'keep rule computed in exact integer arithmetic, and preset lists must select the union.',
+            'Cases within one ulp of flipping the distinct-value structure are excluded and counted. Expected names come from the vault dictionaries.',
+            'DESIGN.md §3 C12'),
+    'C14': ('compact insertion histories (Hypothesis program cases) crossing 2^18 distinct values + element-level histories vs a set model',
+            'Exploration: generated histories of fresh / replay / shuffle / probe segments over injective value families land cumulative '
+            'distinct counts on 1..50, 2^18-2..2^18+2 and 2^18*{1.5,2,4,8}; oracles: exact size up to 2^18, within 2% up to 2^21, size '
+            'unchanged by replay-only stretches, same size for re-ordered multisets in the exact range; small histories compare with a set after every add.',
+            'The 2% bound is a statistical statement tested on sampled value families; only strings are fed (as the pipeline does).',
+            'DESIGN.md §3 C14'),
+    'C15': ('two model-based history checks (Hypothesis program cases): count-min sketch vs Counter, bounded counter vs Counter',
+            'Exploration: generated update/query programs over all sketch shapes (depth 1-8, width 1..2^15), numpy seeds, int (full int64, '
+            'congruent pairs) and string items and non-negative weights; after every update: true <= query <= total for every seen item, '
+            'each row sums to the total, queries leave the matrix unchanged. Bounded counter: never over-counts, exact while fewer than '
+            'bound distinct values were seen, never tracks more than bound values.',
+            'Total weight kept below 2^31 (int32 matrix is code-imposed).', 'DESIGN.md §3 C15'),
+    'C16': ('Hypothesis tables rendered per format: round trip through generic_line_parser + whole-line rejection through the streaming loop; atheris campaign in the thorough tier',
+            'Exploration: generated tables of string cells (empties first/last/everywhere, delimiters, quotes, unicode whitespace, control '
+            'characters) are rendered as CSV (csv.writer), tab-separated and VW lines with generated namespace maps and must parse back to '
+            'exactly their fields / namespace columns (absent -> None, label = first token); wrong-arity lines must not have the header '
+            'length and are absent from every batch of the streaming loop while neighbours keep their columns; parse_namespace returns the '
+            'declared map and f32 set. Thorough adds a coverage-guided atheris campaign over the same oracles.',
+            'Both readings of "without their two-character prefix" are accepted for multi-token namespaces. Cells with line breaks excluded by the quantifier.',
+            'DESIGN.md §3 C16'),
 }
 
 NOT_YET = 'check not built yet in this commit (work in progress; planned in DESIGN.md §3)'
